@@ -848,7 +848,7 @@ def OP_DEF(tape: Tape, stack: Stack, cache: dict) -> None:
         def_data,
         callstack_limit=tape.callstack_limit,
         contracts=tape.contracts,
-        flags=tape.flags
+        flags={**tape.flags}
     )
     tape.definitions[def_handle] = subtape
     subtape.definitions = tape.definitions
